@@ -548,3 +548,33 @@ def check_poly_pattern(prog, rep, qual='tensors.poly'):
             'ok' if ok3 else 'violation',
             '' if ok3 else 'last core column %r does not close the sum to '
             'scale * (S + g)' % (last,), line=lits[2][2].lineno, file=mod.path)
+
+
+def check_basis_values(prog, rep, qual, size_param, arg_param, first=None,
+                       rule='F-basis', sizes=(1, 2, 3, 5)):
+    """The rows / columns built by a Chebyshev basis routine, obtained by
+    bounded symbolic execution of its statements for small basis sizes, are
+    T_0 (or its documented normalisation), T_1 = x, T_k = 2 x T_{k-1} -
+    T_{k-2} as polynomials in x."""
+    from . import rules_sym
+    fn = prog.func(qual)
+    for size in sizes:
+        rows = rules_sym.basis_rows(prog, fn, size, size_param, arg_param)
+        if rows is None:
+            rep.unknown(rule, qual, 'basis of size %d' % size,
+                        'statements outside the supported fragment',
+                        line=fn.node.lineno, file=fn.module.path)
+            continue
+        bad = None
+        for k in range(size):
+            want = rules_sym.cheb_expected(k, first=first)
+            got = rows.get(k)
+            if got is None or not got.eq(want):
+                bad = (k, got.reduced() if got is not None else None,
+                       want.reduced())
+                break
+        rep.add(rule, qual, 'basis of size %d equals T_0 .. T_%d'
+                % (size, size - 1), 'ok' if bad is None else 'violation',
+                '' if bad is None else 'entry %d of the basis is %r, expected '
+                'the Chebyshev polynomial %r' % bad,
+                line=fn.node.lineno, file=fn.module.path)
